@@ -4,6 +4,7 @@ import (
 	"fmt"
 	"strings"
 	"time"
+	"unicode"
 	"unicode/utf8"
 
 	"github.com/huderlem/poryscript/lexer"
@@ -142,6 +143,13 @@ func positionProblems(src string, toks []token.Token) (string, []ltok) {
 		if off < prevEnd {
 			return fmt.Sprintf("token %s %q at offset %d overlaps the previous token ending at %d", t.Type, t.Literal, off, prevEnd), nil
 		}
+		// What lies between two tokens is layout: white space and comments. A letter, digit, mark, punctuation or symbol there
+		// (outside a comment) is a visible character of the program that no token accounts for.
+		if i == 0 || !out[len(out)-1].open {
+			if r, at := visibleOutsideComments(src[prevEnd:off]); at >= 0 {
+				return fmt.Sprintf("dropped character: %q (U+%04X) at offset %d lies between two tokens, outside any comment, and belongs to neither (next token %s %q)", string(r), r, prevEnd+at, t.Type, t.Literal), nil
+			}
+		}
 		if t.Type == token.EOF {
 			// EOF has no first character: only its offset (above) is judged.
 			out = append(out, ltok{t, off, end, false})
@@ -165,6 +173,27 @@ func positionProblems(src string, toks []token.Token) (string, []ltok) {
 		prevEnd = end
 	}
 	return "", out
+}
+
+// visibleOutsideComments returns the first letter, digit, mark, punctuation or symbol of gap that is not inside a '#' or
+// '//' comment (at = -1 when there is none). White space of any kind, control and format characters are layout.
+func visibleOutsideComments(gap string) (rune, int) {
+	for i := 0; i < len(gap); {
+		r, n := utf8.DecodeRuneInString(gap[i:])
+		if r == '#' || (r == '/' && strings.HasPrefix(gap[i:], "//")) {
+			j := strings.IndexByte(gap[i:], '\n')
+			if j < 0 {
+				return 0, -1
+			}
+			i += j + 1
+			continue
+		}
+		if r != utf8.RuneError && (unicode.IsLetter(r) || unicode.IsNumber(r) || unicode.IsMark(r) || unicode.IsPunct(r) || unicode.IsSymbol(r)) {
+			return r, i
+		}
+		i += n
+	}
+	return 0, -1
 }
 
 func sameSeq(a, b []token.Token) bool {
@@ -380,6 +409,22 @@ func runC19(tier string) int {
 		r.NotExhaustive("character-class inputs not completed")
 	}
 	r.Set("class_runes", len(classRunes))
+	// (f2) runes that become an ASCII character when truncated to 8 or 16 bits: U+01xx, U+04xx, U+4Exx and U+100xx for every
+	// ASCII value xx (a table or a comparison that looks at byte(ch) takes 'Р' U+0420 for a space), in the same contexts
+	var aliasRunes []rune
+	for b := rune(0); b < 128; b++ {
+		for _, hi := range []rune{0x100, 0x400, 0x4E00, 0x10000} {
+			aliasRunes = append(aliasRunes, hi|b)
+		}
+	}
+	aliasDone := r.Parallel(uint64(len(aliasRunes)*len(classCtx)), func(w int, idx uint64) {
+		ctx := classCtx[idx%uint64(len(classCtx))]
+		r.Add("alias_rune_inputs", 1)
+		c19Check(r, strings.ReplaceAll(ctx, "%s", string(aliasRunes[idx/uint64(len(classCtx))])), true)
+	})
+	if !aliasDone {
+		r.NotExhaustive("truncation-alias inputs not completed")
+	}
 	// (c) compiled output unchanged under layout changes (corpus of C16)
 	for _, prog := range c16Corpus {
 		toks := c16Parse(prog.text)
@@ -481,7 +526,7 @@ func runC19(tier string) int {
 		"gaps are taken between tokens as the lexer itself reports them; a string-type prefix and the quote after it are one lexical unit; the white space and comments between the parts of a multi-part string are inside one token",
 		"inputs on which the lexer panics are counted and left to C18")
 	return r.Finish(r.Get("evaluations"), r.Get("nontrivial"),
-		"(a) every string of <= N characters over 20 characters (letters incl. multi-byte, a multi-byte non-letter, ASCII and non-ASCII digits, x, -, quote, backtick, space, tab, LF, CR, #, /, =, !, (, :); (b) every sequence of <= M lexemes from a 65-lexeme alphabet (all keywords, identifiers, numbers incl. hex/negative/leading zero, strings, typed string, raw string, every operator and delimiter, illegal characters) in 5 layouts; each input: position oracle on every token, then every gap replaced by each of 13 separators (spaces, tab, LF, CRLF, blank line, # and // comments, runs of several comment lines with indentation, comments whose text ends in a backslash) and re-lexed; (c) C16's corpus programs compiled under every single-gap layout change; (d) tokens after K lines / K one-byte / K two-byte characters for every K <= 300 (thorough 5000) and around every power of two up to 2^17 (thorough 2^21); (e) every program of the control-flow families (C01 / C03 / C04 bounds) rewritten on one line, one token group per line, with a comment and CRLF at each line end, with blank and comment lines between all lines, and with every dispensable white space removed, compiled and compared, and the same for the data families (C06 hoisting files, C08 mapscripts statements, file-level programs, reduced bounds); (f) one representative of every Unicode general category, every non-ASCII white-space rune, combining marks, astral runes and the runes of the compiler's own source, singly and in pairs, in 9 lexical contexts; non-trivial = >= 2 tokens and a line break or multi-byte character")
+		"(a) every string of <= N characters over 20 characters (letters incl. multi-byte, a multi-byte non-letter, ASCII and non-ASCII digits, x, -, quote, backtick, space, tab, LF, CR, #, /, =, !, (, :); (b) every sequence of <= M lexemes from a 65-lexeme alphabet (all keywords, identifiers, numbers incl. hex/negative/leading zero, strings, typed string, raw string, every operator and delimiter, illegal characters) in 5 layouts; each input: position oracle on every token, then every gap replaced by each of 13 separators (spaces, tab, LF, CRLF, blank line, # and // comments, runs of several comment lines with indentation, comments whose text ends in a backslash) and re-lexed; (c) C16's corpus programs compiled under every single-gap layout change; (d) tokens after K lines / K one-byte / K two-byte characters for every K <= 300 (thorough 5000) and around every power of two up to 2^17 (thorough 2^21); (e) every program of the control-flow families (C01 / C03 / C04 bounds) rewritten on one line, one token group per line, with a comment and CRLF at each line end, with blank and comment lines between all lines, and with every dispensable white space removed, compiled and compared, and the same for the data families (C06 hoisting files, C08 mapscripts statements, file-level programs, reduced bounds); (f) one representative of every Unicode general category, every non-ASCII white-space rune, combining marks, astral runes and the runes of the compiler's own source, singly and in pairs, in 9 lexical contexts, plus the 512 runes U+01xx, U+04xx, U+4Exx, U+100xx whose low byte is an ASCII character; non-trivial = >= 2 tokens and a line break or multi-byte character")
 }
 
 // tightLayout removes every piece of white space that is not needed to keep two word-like tokens apart
